@@ -713,9 +713,14 @@ def correspond(ctx):
                 return '(IConst %s)' % cz(i[1]) if i[0] == -1 else '(IOut %s %s)' % (cz(i[0]), cz(i[1]))
             truth = clist(['(mkUgen %s %s %s %s %s)' % (cb(u[0]), cz(u[1]), clist(u[2], c_in), clist(u[3], cz), cz(u[4]))
                            for u in o.get('truth', [])])
-            items.append('(check_case %s %s %s %s %s %s %s %s %s %s)' % (
-                cb(b), c_order(o['order']), c_desc(o['desc']), c_names3(o['names3']), c_vsrc(k.get('variants')), decl,
-                copt(o.get('defname'), cb), cb(k['name']), truth, clist(o.get('truthk', []), cz)))
+            light = sum(len(d_[3]) for d_ in o.get('decl', [])) > 4000
+            fn = 'check_case_light' if light else 'check_case'
+            if light:
+                decl = clist(['(%s, %s, %s, [])' % (cb(n), cz(i), cz(r)) for n, i, r, ws in o.get('decl', [])])
+            items.append('(' + fn + ' %s %s %s %s %s %s %s %s %s %s)' % (
+                cb(b), c_order(o['order']), 'None' if light else c_desc(o['desc']), c_names3(o['names3']),
+                c_vsrc(k.get('variants')), decl, copt(o.get('defname'), cb), cb(k['name']), truth,
+                clist(o.get('truthk', []), cz)))
             item_case.append(idx)
             if o['nunits'] >= 2:
                 c.nontriv((k['name'], o['bytes'][:4000]))
@@ -1106,6 +1111,15 @@ def bridge_correspond(ctx, c):
     outs = ctx.impl('c02_bridge', {'cases': progs}, timeout=900)['out']
     items = []
     cbz = lambda x: cb(x) + '%Z'          # Graph.v opens nat_scope
+    keep = []
+    for p, o in zip(progs, outs):
+        # the compiler model's constants are rationals: the sign of a zero cannot be represented there
+        if any(w == 0x80000000 for _q, w in o['f32']):
+            c.count('bridge:skipped-negative-zero')
+            continue
+        keep.append((p, o))
+    progs = [p for p, _ in keep]
+    outs = [o for _, o in keep]
     for p, o in zip(progs, outs):
         tab = clist(['(%s, %s)' % (fw.cq(Fraction(q)), cz(w)) for q, w in o['f32']])
         pn = clist(['(%s, %s)' % (cbz(n), cz(i)) for n, i in o['pnames']])
